@@ -5,27 +5,123 @@
 From ACV Require Import Base.Strs Model.Escape.
 Local Open Scope string_scope.
 
-(* one character: scanning its escaped form yields it back (all 256 byte values) *)
-Lemma scan_char : forall c tail fuel,
+(* one character other than 0xEF: scanning its escaped form yields it back (255 byte values) *)
+Lemma scan_char : forall c tail fuel, byte c <> 239 ->
   scan_literal (S fuel) (escape_char c ++ tail) =
   match scan_literal fuel tail with Some (t, z) => Some (String c t, z) | None => None end.
 Proof.
-  intros c tail fuel. destruct c as [[] [] [] [] [] [] [] []]; cbn; try reflexivity; destruct fuel; try reflexivity.
+  intros c tail fuel Hc. destruct c as [[] [] [] [] [] [] [] []]; try (exfalso; apply Hc; reflexivity); cbn; try reflexivity; destruct fuel; try reflexivity.
+Qed.
+Lemma byte_eq c n : byte c = n -> c = chr n.
+Proof. intros H. rewrite <- H. unfold chr, byte. now rewrite ascii_nat_embedding. Qed.
+(* the byte 0xEF where no byte-order mark starts *)
+Lemma scan_ef : forall c tail fuel, byte c = 239 -> starts_with_bom (String c tail) = false ->
+  scan_literal (S fuel) (String c tail) =
+  match scan_literal fuel tail with Some (t, z) => Some (String c t, z) | None => None end.
+Proof.
+  intros c tail fuel Hc Hb. cbn [scan_literal]. rewrite Hb.
+  apply byte_eq in Hc. subst c. reflexivity.
+Qed.
+
+Lemma escape_char_ef c : byte c = 239 -> escape_char c = String c "".
+Proof. intros Hc. apply byte_eq in Hc. subst c. reflexivity. Qed.
+
+(* the unfolding of [escape] *)
+Lemma escape_cons c1 r1 :
+  escape (String c1 r1) =
+  if starts_with_bom (String c1 r1) then bom_escape ++ escape (sdrop 2 r1) else escape_char c1 ++ escape r1.
+Proof.
+  cbn [escape starts_with_bom]. destruct r1 as [|c2 [|c3 r3]].
+  - destruct (Nat.eqb (byte c1) 239); reflexivity.
+  - destruct (Nat.eqb (byte c1) 239); [destruct (Nat.eqb (byte c2) 187)|]; reflexivity.
+  - unfold is_bom. cbn [sdrop]. destruct (Nat.eqb (byte c1) 239); [destruct (Nat.eqb (byte c2) 187)|]; reflexivity.
+Qed.
+
+(* the first byte of an escaped text: a byte >= 0x80 can only stand for itself *)
+Definition head (s : string) : option ascii := match s with String c _ => Some c | EmptyString => None end.
+Lemma head_escape_char c : head (escape_char c) = Some c \/ head (escape_char c) = Some "\"%char.
+Proof. destruct c as [[] [] [] [] [] [] [] []]; cbn; auto. Qed.
+Lemma head_app a b : head (a ++ b) = match head a with Some c => Some c | None => head b end.
+Proof. destruct a; reflexivity. Qed.
+Lemma escape_char_nonempty c : head (escape_char c) <> None.
+Proof. destruct (head_escape_char c) as [H|H]; rewrite H; discriminate. Qed.
+Lemma head_escape r q d : 128 <= byte d -> head (escape r ++ q) = Some d ->
+  (r = "" /\ head q = Some d) \/ (exists r', r = String d r' /\ starts_with_bom r = false).
+Proof.
+  intros Hd H. destruct r as [|c r']; [left; split; [reflexivity|exact H]|]. right.
+  rewrite escape_cons in H. destruct (starts_with_bom (String c r')) eqn:Eb.
+  - cbn in H. inversion H; subst d. cbn in Hd. lia.
+  - rewrite sappend_assoc, head_app in H. destruct (head_escape_char c) as [Hc|Hc]; rewrite Hc in H; inversion H; subst.
+    + exists r'. split; reflexivity || exact Eb.
+    + cbn in Hd. lia.
+Qed.
+
+(* no raw byte-order mark at the beginning of what is left to scan, at any position *)
+Lemma no_bom_ahead s rest : starts_with_bom (escape s ++ String """" rest) = false.
+Proof.
+  destruct s as [|c1 r1]; [reflexivity|]. rewrite escape_cons. destruct (starts_with_bom (String c1 r1)) eqn:Eb; [reflexivity|].
+  destruct (Nat.eq_dec (byte c1) 239) as [Hc|Hc].
+  - rewrite (escape_char_ef c1 Hc). cbn [append starts_with_bom]. rewrite Hc. cbn [Nat.eqb].
+    change (Nat.eqb 239 239) with true. cbv iota.
+    destruct (escape r1 ++ String """" rest) as [|b t] eqn:E1; [reflexivity|].
+    destruct (Nat.eqb (byte b) 187) eqn:Hb; [|reflexivity]. apply Nat.eqb_eq in Hb.
+    assert (H1 : head (escape r1 ++ String """" rest) = Some b) by (rewrite E1; reflexivity).
+    apply head_escape in H1; [|lia]. destruct H1 as [[-> Hq]|[r' [-> Hnb]]].
+    { cbn in Hq. inversion Hq; subst b. vm_compute in Hb. congruence. }
+    rewrite escape_cons, Hnb in E1. rewrite sappend_assoc in E1.
+    assert (Hec : escape_char b = String b "").
+    { apply byte_eq in Hb. subst b. reflexivity. }
+    rewrite Hec in E1. cbn [append] in E1. inversion E1; subst t.
+    destruct (escape r' ++ String """" rest) as [|b2 t2] eqn:E2; [reflexivity|].
+    destruct (Nat.eqb (byte b2) 191) eqn:Hb2; [|reflexivity]. apply Nat.eqb_eq in Hb2.
+    assert (H2 : head (escape r' ++ String """" rest) = Some b2) by (rewrite E2; reflexivity).
+    apply head_escape in H2; [|lia]. destruct H2 as [[-> Hq]|[r'' [-> _]]].
+    { cbn in Hq. inversion Hq; subst b2. vm_compute in Hb2. congruence. }
+    (* then the text began with EF BB BF *)
+    cbn [starts_with_bom] in Eb. rewrite Hc, Hb, Hb2 in Eb. cbn in Eb. discriminate.
+  - rewrite sappend_assoc. destruct (head_escape_char c1) as [Hh|Hh].
+    + destruct (escape_char c1) as [|h t] eqn:Ee; [discriminate|]. cbn in Hh. inversion Hh; subst h.
+      cbn [append starts_with_bom]. apply Nat.eqb_neq in Hc. rewrite Hc. reflexivity.
+    + destruct (escape_char c1) as [|h t] eqn:Ee; [discriminate|]. cbn in Hh. inversion Hh; subst h. reflexivity.
 Qed.
 
 (* the whole text: whatever follows the closing quote is left alone - nothing of s can end the literal early *)
 Theorem scan_escape : forall s rest fuel, String.length s < fuel ->
   scan_literal fuel (escape s ++ String """" rest) = Some (s, rest).
 Proof.
-  induction s as [|c s IH]; intros rest fuel Hf; simpl.
-  - destruct fuel; [lia|]. reflexivity.
-  - destruct fuel; [simpl in Hf; lia|]. rewrite sappend_assoc, scan_char. rewrite IH by (simpl in Hf; lia). reflexivity.
+  intros s. remember (String.length s) as n eqn:Hn. revert s Hn.
+  induction n as [n IH] using lt_wf_ind. intros s Hn rest fuel Hf. subst n.
+  destruct s as [|c1 r1].
+  - destruct fuel; [cbn in Hf; lia|]. reflexivity.
+  - destruct fuel; [cbn in Hf; lia|]. rewrite escape_cons. destruct (starts_with_bom (String c1 r1)) eqn:Eb.
+    + (* a byte-order mark: six characters, one step *)
+      cbn [starts_with_bom] in Eb.
+      destruct (Nat.eqb (byte c1) 239) eqn:H1; [|discriminate]. destruct r1 as [|c2 r2]; [discriminate|].
+      destruct (Nat.eqb (byte c2) 187) eqn:H2; [|discriminate]. destruct r2 as [|c3 r3]; [discriminate|].
+      apply Nat.eqb_eq in H1, H2, Eb. cbn [sdrop].
+      assert (E1 : c1 = chr 239) by (rewrite <- H1; unfold chr, byte; now rewrite ascii_nat_embedding).
+      assert (E2 : c2 = chr 187) by (rewrite <- H2; unfold chr, byte; now rewrite ascii_nat_embedding).
+      assert (E3 : c3 = chr 191) by (rewrite <- Eb; unfold chr, byte; now rewrite ascii_nat_embedding).
+      subst c1 c2 c3. unfold bom_escape. cbn [append scan_literal starts_with_bom byte]. cbn.
+      rewrite (IH (String.length r3)); [reflexivity|cbn; lia|reflexivity|cbn in Hf; lia].
+    + pose proof (no_bom_ahead r1 rest) as Hnb.
+      destruct (Nat.eq_dec (byte c1) 239) as [Hc|Hc].
+      * rewrite (escape_char_ef c1 Hc). cbn [append]. rewrite scan_ef; [|exact Hc|].
+        -- rewrite (IH (String.length r1)); [reflexivity|cbn; lia|reflexivity|cbn in Hf; lia].
+        -- pose proof (no_bom_ahead (String c1 r1) rest) as H. rewrite escape_cons, Eb, (escape_char_ef c1 Hc) in H. exact H.
+      * rewrite sappend_assoc, scan_char by exact Hc.
+        rewrite (IH (String.length r1)); [reflexivity|cbn; lia|reflexivity|cbn in Hf; lia].
 Qed.
 
 Lemma escape_length s : String.length s <= String.length (escape s).
 Proof.
-  induction s as [|c s IH]; simpl; [lia|]. rewrite append_length.
-  assert (1 <= String.length (escape_char c)) by (destruct c as [[] [] [] [] [] [] [] []]; vm_compute; lia). lia.
+  remember (String.length s) as n eqn:Hn. revert s Hn. induction n as [n IH] using lt_wf_ind. intros s Hn. subst n.
+  destruct s as [|c1 r1]; [cbn; lia|]. rewrite escape_cons. destruct (starts_with_bom (String c1 r1)) eqn:Eb.
+  - cbn [starts_with_bom] in Eb. destruct (Nat.eqb (byte c1) 239); [|discriminate]. destruct r1 as [|c2 r2]; [discriminate|].
+    destruct (Nat.eqb (byte c2) 187); [|discriminate]. destruct r2 as [|c3 r3]; [discriminate|]. cbn [sdrop].
+    rewrite append_length. pose proof (IH (String.length r3) ltac:(cbn; lia) r3 eq_refl). cbn in *. lia.
+  - rewrite append_length. pose proof (IH (String.length r1) ltac:(cbn; lia) r1 eq_refl).
+    assert (1 <= String.length (escape_char c1)) by (destruct c1 as [[] [] [] [] [] [] [] []]; vm_compute; lia). cbn. lia.
 Qed.
 
 (* ------------------------------------------------------------------ placeholders *)
@@ -168,23 +264,37 @@ Theorem refuted_before_fix_backslash :
 Proof. vm_compute. reflexivity. Qed.
 
 (* ------------------------------------------------------------------ patterns and value lists *)
-Lemma scan_raw_verbatim : forall p rest, has_backtick p = false -> scan_raw (p ++ String "`" rest) = Some (p, rest).
+(* no byte-order mark in p: none starts at the beginning of p followed by a backtick either *)
+Lemma no_bom_before_backtick p rest : has_bom p = false -> starts_with_bom (p ++ String "`" rest) = false.
 Proof.
-  induction p as [|c p IH]; simpl; intros rest H; [reflexivity|].
-  apply orb_false_iff in H as [Hc Hp]. rewrite Hc. now rewrite (IH rest Hp).
+  intros H. destruct p as [|a [|b [|c r]]]; cbn [append starts_with_bom].
+  - reflexivity.
+  - destruct (Nat.eqb (byte a) 239); reflexivity.
+  - destruct (Nat.eqb (byte a) 239); [|reflexivity]. destruct (Nat.eqb (byte b) 187); reflexivity.
+  - cbn [has_bom] in H. apply orb_false_iff in H as [H _]. exact H.
+Qed.
+Lemma scan_raw_verbatim : forall p rest, has_backtick p = false -> has_bom p = false -> scan_raw (p ++ String "`" rest) = Some (p, rest).
+Proof.
+  induction p as [|c p IH]; intros rest H Hb; [reflexivity|].
+  pose proof (no_bom_before_backtick (String c p) rest Hb) as Hn.
+  cbn [has_backtick] in H. apply orb_false_iff in H as [Hc Hp].
+  cbn [has_bom] in Hb. apply orb_false_iff in Hb as [_ Hb].
+  change ((String c p ++ String "`" rest)%string) with (String c (p ++ String "`" rest)) in *.
+  cbn [scan_raw]. rewrite Hn, Hc. now rewrite (IH rest Hp Hb).
 Qed.
 
-(* every regular expression, with or without backticks, quotes, backslashes or newlines, is read back by the engine as
-   exactly that text, and the code after the literal is untouched *)
+(* every regular expression, with or without backticks, quotes, backslashes, newlines or byte-order marks, is read back by the
+   engine as exactly that text, and the code after the literal is untouched *)
 Theorem pattern_literal_verbatim : forall p rest,
   scan_string_term (S (String.length p)) (pattern_literal p ++ rest) = Some (p, rest).
 Proof.
-  intros p rest. unfold pattern_literal. destruct (has_backtick p) eqn:E.
+  intros p rest. unfold pattern_literal. destruct (has_backtick p || has_bom p) eqn:E.
   - assert (H : (String """" (escape p ++ """") ++ rest)%string = String """" (escape p ++ String """" rest)).
     { simpl. f_equal. rewrite sappend_assoc. reflexivity. }
     rewrite H. unfold scan_string_term. change (Ascii.eqb """" "`") with false. cbv iota. rewrite Ascii.eqb_refl.
     apply scan_escape. lia.
-  - assert (H : (String "`" (p ++ "`") ++ rest)%string = String "`" (p ++ String "`" rest)).
+  - apply orb_false_iff in E as [E1 E2].
+    assert (H : (String "`" (p ++ "`") ++ rest)%string = String "`" (p ++ String "`" rest)).
     { simpl. f_equal. rewrite sappend_assoc. reflexivity. }
     rewrite H. unfold scan_string_term. rewrite Ascii.eqb_refl. now apply scan_raw_verbatim.
 Qed.
@@ -228,3 +338,12 @@ Proof.
     change (List.length (y :: r')) with (S (List.length r')) in IH'.
     rewrite IH' by (simpl in *; lia). reflexivity.
 Qed.
+
+(* before the repair: the escaper copied a byte-order mark, which the engine's scanner refuses inside a literal *)
+Definition bytewise_escape : string -> string :=
+  fix go (s : string) : string := match s with EmptyString => EmptyString | String c r => escape_char c ++ go r end.
+Lemma refuted_before_fix_bom :
+  scan_literal 10 (bytewise_escape (String (chr 239) (String (chr 187) (String (chr 191) "x"))) ++ """") = None
+  /\ scan_literal 10 (escape (String (chr 239) (String (chr 187) (String (chr 191) "x"))) ++ """")
+     = Some (String (chr 239) (String (chr 187) (String (chr 191) "x")), "").
+Proof. vm_compute. split; reflexivity. Qed.
